@@ -90,3 +90,48 @@ Definition can_redirect_old (domains : list bs) (npatterns : nat) (re_matched : 
       else (if Nat.eqb npatterns 0 then true else re_matched) &&
            existsb (host_matches_old (hostname u)) domains
   end.
+
+(* ---- the client AS CONFIGURED.  configured_domains = the allowed_redirect_domains strings exactly as they
+   stand in the configuration file; rc_public = the client has no secret (a public / PKCE client);
+   rc_options = the values of every other boolean option of the client record (whichever options exist).
+   The loader hands the entries to the validator byte for byte (loaded_domains = identity: no trimming, no
+   case folding, no URL-form "normalisation"), and no client kind relaxes any clause of the decision. *)
+Record rclient := { rc_public : bool; rc_options : list bool; configured_domains : list bs }.
+Definition loaded_domains (c : rclient) : list bs := configured_domains c.
+Definition can_redirect_c (c : rclient) (pats : list pres) (parse : option parsed) : option bool :=
+  can_redirect_p (loaded_domains c) pats parse.
+Definition cors_allowed_c (c : rclient) (parse : option parsed) : bool :=
+  cors_allowed (loaded_domains c) parse.
+
+(* two loaders/validators that are NOT the decision (kept to be refuted):
+   - a loader that "reduces URL-form entries to their host" with strings.TrimLeft(entry, "https://") — a
+     character SET — and cuts at the first '/', '?' or '#' *)
+Definition trim_cutset : bs := [104; 116; 116; 112; 115; 58; 47; 47].   (* "https://" *)
+Fixpoint trim_left_set (cut s : bs) : bs :=
+  match s with
+  | c :: r => if existsb (N.eqb c) cut then trim_left_set cut r else s
+  | [] => []
+  end.
+Fixpoint contains_b (p s : bs) : bool :=
+  prefix_b p s || match s with [] => false | _ :: r => contains_b p r end.
+Fixpoint cut_at_path (s : bs) : bs :=
+  match s with
+  | c :: r => if (c =? 47) || (c =? 63) || (c =? 35) then [] else c :: cut_at_path r
+  | [] => []
+  end.
+Definition normalise_trimset (entry : bs) : bs :=
+  if contains_b [58; 47; 47] entry then cut_at_path (trim_left_set trim_cutset entry) else entry.
+Definition can_redirect_c_trimset (c : rclient) (pats : list pres) (parse : option parsed) : option bool :=
+  can_redirect_p (map normalise_trimset (configured_domains c)) pats parse.
+(*  - a validator that lets a public client use http when the host name "starts like" a loopback literal *)
+Definition http_s : bs := [104; 116; 116; 112].
+Definition loopback_prefix (h : bs) : bool := prefix_b [49; 50; 55; 46] h.   (* "127." *)
+Definition can_redirect_c_loopback (c : rclient) (pats : list pres) (parse : option parsed) : option bool :=
+  match parse with
+  | Some u =>
+      if rc_public c && bs_eqb (scheme u) http_s && loopback_prefix (hostname u)
+         && negb (opaque u) && negb (is_nil (uhost u)) && is_nil (rawquery u) && negb (has_dotdot (upath u))
+      then match pats with [] => Some true | _ => eval_patterns pats end
+      else can_redirect_c c pats parse
+  | None => can_redirect_c c pats parse
+  end.
